@@ -757,10 +757,10 @@ func judged(keys []Key) bool {
 }
 
 type env struct {
-	o      *opened
-	ids    map[uint64]string // doc number -> id, from a match-all pass over the same reader
-	fulls  map[int][]hit     // per query: AllMatches in delivery order
-	qs     []QSpec
+	o       *opened
+	ids     map[uint64]string // doc number -> id, from a match-all pass over the same reader
+	fulls   map[int][]hit     // per query: AllMatches in delivery order
+	qs      []QSpec
 	nsearch int
 }
 
